@@ -11,6 +11,7 @@ groups, unsorted ticks).  Three things are then computed from it
 correspondence = model(describe) vs run_impl (exact, ordered);  oracle = expect vs run_impl (sets per object).
 """
 import copy
+import math
 import os
 import random
 import re
@@ -111,9 +112,28 @@ def _x():
     return {"del": [], "empty": []}
 
 
-TICK0 = [-2.0, 0.0, 0.5, 10.0]
-TICKD = [0.25, 0.5, 1.0, 3.0]
-INTERVALS = [0.125, 0.5, 1.0, 2.0, 10.0, 3]
+TICK0 = [-2.0, 0.0, -0.0, 0.5, 10.0]
+TICKD = [0.25, 0.5, 1.0, 3.0, "ulp"]
+INTERVALS = [0.125, 0.5, 1.0, 2.0, 10.0, 3, 5e-324, 1e-300, 1e300]
+# present-but-falsy-looking values of the fields the validator tests for presence: none of them is an inconsistency
+ODD_TEXT = ["0", " ", "None", "False", "0.0", "[]", "nan", "()", "-0", "{}", "''", '""', "null", "no"]
+ODD_TIMES = [0, 0, 0, 1, -1]
+POS_PATTERNS = ["half", "half", "zero", "neg", "mixed"]
+
+
+def pos_values(pv, n):
+    """the position of a tag with n entries (pattern pv): zeros are positions like any other"""
+    if pv == "zero":
+        return [0.0] * n
+    if pv == "neg":
+        return [-(float(k) + 0.5) for k in range(n)]
+    if pv == "mixed":
+        return [0.0 if k % 2 == 0 else float(k) + 0.5 for k in range(n)]
+    return [float(k) + 0.5 for k in range(n)]
+
+
+def ext_values(ev, n):
+    return [0.0 if ev == "zero" else 1.0] * n
 
 
 def gen_dim(rng, n, q=False, odd=False):
@@ -129,16 +149,20 @@ def gen_dim(rng, n, q=False, odd=False):
     else:
         k = rng.choice([x for x in kinds if x != "set"])
         unit = SI.spell(SI.variant(rng, q))
+    if unit is None and rng.random() < 0.25:
+        unit = ""                               # an empty unit string is "no unit" as well
     if k == "range":
-        t0 = rng.choice(TICK0)
+        t0 = rng.choice(TICK0 if n > 1 or rng.random() < 0.5 else [0.0, -0.0])
         ticks = []
         for _ in range(n):
             ticks.append(t0)
-            t0 += rng.choice(TICKD)
+            step = rng.choice(TICKD)
+            t0 = math.nextafter(t0, math.inf) if step == "ulp" else t0 + step
         return {"k": "range", "ticks": ticks, "unit": unit, "idx": None}
     if k == "sample":
-        return {"k": "sample", "interval": rng.choice(INTERVALS), "unit": unit, "idx": None}
-    return {"k": "set", "labels": rng.choice([0, n]), "idx": None}
+        return {"k": "sample", "interval": rng.choice(INTERVALS), "unit": unit, "idx": None,
+                "offset": rng.choice([None, None, 0.0, -1.5])}
+    return {"k": "set", "labels": rng.choice([0, n]), "idx": None, "lt": rng.choice(["num", "num", "empty"])}
 
 
 def gen_dims(rng, shape, odd=False):
@@ -237,12 +261,14 @@ def gen_block(rng, small, odd=False, want=0):
         if refs:
             rank = fam["rank"]
             tags.append({"x": _x(), "pos": rank, "ext": rng.choice([0, rank]), "units": units, "refs": refs,
-                         "feats": gen_feats(rng, arrays)})
+                         "feats": gen_feats(rng, arrays), "pv": rng.choice(POS_PATTERNS),
+                         "ev": rng.choice(["one", "zero"])})
         else:
             n = rng.choice([1, 2, 3])
             tags.append({"x": _x(), "pos": n, "ext": rng.choice([0, n]),
                          "units": rng.choice([[], free_units(rng, n)]),
-                         "refs": [], "feats": gen_feats(rng, arrays)})
+                         "refs": [], "feats": gen_feats(rng, arrays), "pv": rng.choice(POS_PATTERNS),
+                         "ev": rng.choice(["one", "zero"])})
     for ti in range(rng.choice([1] if small else [1, 2])):
         refs, units, fam = gen_refs(rng, fams, want if ti == 0 else 0)
         npos = rng.choice([1, 2, 3])
@@ -265,10 +291,41 @@ def gen_block(rng, small, odd=False, want=0):
 
 
 def gen_recipe(rng, small=False, odd=False, want=0):
-    return {"epoch0": False,
-            "blocks": [gen_block(rng, small, odd, want if bi == 0 else 0)
-                       for bi in range(rng.choice([1, 1, 1, 2]) if small else rng.choice([1, 2]))],
-            "sections": gen_sections(rng, 2 if small else 3)}
+    r = {"epoch0": rng.random() < 0.25,
+         "blocks": [gen_block(rng, small, odd, want if bi == 0 else 0)
+                    for bi in range(rng.choice([1, 1, 1, 2]) if small else rng.choice([1, 2]))],
+         "sections": gen_sections(rng, 2 if small else 3)}
+    return decorate(rng, r, rng.choice([0.0, 0.15, 0.5, 1.0]))
+
+
+def decorate(rng, r, p):
+    """boundary VALUES of the fields the validator tests for presence (each with probability p per field): creation
+    time at the epoch (0), type / name strings that look falsy but are not empty ("0", " ", "None"); names stay
+    unique per container.  None of this is an inconsistency: the expectation does not look at these keys"""
+    if p <= 0:
+        return r
+    pools = {}
+
+    def name_for(container):
+        pool = pools.setdefault(container, rng.sample(ODD_TEXT, len(ODD_TEXT)))
+        return pool.pop() if pool else None
+    for kind, path, x in _entities(r):
+        if rng.random() < p:
+            x["cr"] = rng.choice(ODD_TIMES)
+        if rng.random() < p:
+            x["type"] = rng.choice(ODD_TEXT)
+        if rng.random() < p:
+            x["name"] = name_for((kind, tuple(path[:-1])))
+    for b in r["blocks"]:
+        for t in b["tags"] + b["mtags"]:
+            for f in t["feats"]:
+                if rng.random() < p:
+                    f["cr"] = rng.choice(ODD_TIMES)
+    for path, sec in _sections(r):
+        for pr in sec["props"]:
+            if rng.random() < p:
+                pr["name"] = name_for(("prop", tuple(path)))
+    return r
 
 
 def gen_unit_sweep(rng, n, odd=False):
@@ -303,7 +360,7 @@ def gen_unit_sweep(rng, n, odd=False):
             mtags.append({"x": _x(), "pos": pos, "ext": None, "units": [unit], "refs": refs, "feats": [],
                           "unlink": False})
     blk = {"x": _x(), "groups": [], "arrays": arrays, "tags": tags, "mtags": mtags, "sources": []}
-    return {"epoch0": False, "blocks": [blk], "sections": []}
+    return decorate(rng, {"epoch0": rng.random() < 0.25, "blocks": [blk], "sections": []}, rng.choice([0.0, 0.3]))
 
 
 # ---------------------------------------------------------------------------------------
@@ -370,7 +427,7 @@ def eligible(r, scope="property", rng=None):
     'all' adds the remaining catalogue entries / raising reads (correspondence only).  Unit strings an injection
     writes are drawn here (from rng), so an injection is a complete, replayable description of the mutation"""
     rng = rng or random.Random(0)
-    inj = [["epoch0"]] if scope == "all" else []
+    inj = [["file_nodate"]]
     for kind, path, _x_ in _entities(r):
         for a in ENT_ATTRS:
             inj.append(["ent_del", kind, path, a])
@@ -387,12 +444,15 @@ def eligible(r, scope="property", rng=None):
                 if d["k"] == "range":
                     inj += [["ticks_count", p, 1], ["ticks_count", p, -1], ["ticks_missing", p]]
                     if len(d["ticks"]) >= 2:
-                        inj += [["ticks_unsorted", p], ["ticks_equal", p]]
+                        inj += [["ticks_unsorted", p], ["ticks_equal", p], ["ticks_adj", p, "zeros", 0]]
+                        # one adjacent pair (the first, an inner, the last) made equal / swapped
+                        for j in sorted({0, (len(d["ticks"]) - 1) // 2, len(d["ticks"]) - 2}):
+                            inj += [["ticks_adj", p, "eq", j], ["ticks_adj", p, "swap", j]]
                 if d["k"] in ("range", "sample"):
                     for u in bad_dim_units(rng):
                         inj.append(["dim_unit", p, u])
                 if d["k"] == "sample":
-                    for v in (None, 0, -0.5):
+                    for v in (None, 0, -0.5, -0.0, -5e-324):
                         inj.append(["interval", p, v])
                 if d["k"] == "set":
                     inj += [["labels_count", p, 1], ["labels_count", p, -1]]
@@ -457,6 +517,10 @@ def apply_inj(r, inj):
     try:
         if op == "epoch0":
             r["epoch0"] = True
+        elif op == "file_nodate":
+            if r.get("nodate"):
+                return None
+            r["nodate"] = True
         elif op in ("ent_del", "ent_empty"):
             x = _ent_x(r, inj[1], inj[2])
             if x is None or inj[3] in x["del"] or inj[3] in x["empty"]:
@@ -474,8 +538,8 @@ def apply_inj(r, inj):
             if not a["dims"]:
                 return None
             a["dims"].pop()
-        elif op in ("ticks_count", "ticks_missing", "ticks_unsorted", "ticks_equal", "dim_unit", "interval",
-                    "labels_count", "dim_index"):
+        elif op in ("ticks_count", "ticks_missing", "ticks_unsorted", "ticks_equal", "ticks_adj", "dim_unit",
+                    "interval", "labels_count", "dim_index"):
             bi, ai, di = inj[1]
             a = r["blocks"][bi]["arrays"][ai]
             d = a["dims"][di]
@@ -502,6 +566,23 @@ def apply_inj(r, inj):
                 if d["k"] != "range" or len(d["ticks"]) < 2:
                     return None
                 d["ticks"] = [d["ticks"][0]] + [d["ticks"][0]] + d["ticks"][2:]
+            elif op == "ticks_adj":
+                if d["k"] != "range" or len(d["ticks"]) < 2:
+                    return None
+                t, j = list(d["ticks"]), inj[3]
+                if inj[2] == "zeros":
+                    t = [-0.0, 0.0] + [float(k) for k in range(1, len(t) - 1)]
+                elif j + 1 >= len(t):
+                    return None
+                elif inj[2] == "eq":
+                    t[j + 1] = t[j]
+                else:
+                    if t[j] == t[j + 1]:
+                        return None
+                    t[j], t[j + 1] = t[j + 1], t[j]
+                if [repr(v) for v in t] == [repr(v) for v in d["ticks"]]:
+                    return None
+                d["ticks"] = t
             elif op == "dim_unit":
                 if d["k"] not in ("range", "sample"):
                     return None
@@ -807,8 +888,8 @@ def expect(r, undecided=None):
     def put(kind, path, msgs):
         if msgs:
             out[(kind, tuple(path))] = msgs
-    if r["epoch0"]:
-        put("file", [], {("NoDate",)})
+    if r.get("nodate"):
+        put("file", [], {("NoDate",)})      # a file dated at the epoch (epoch0) HAS a date
     for bi, b in enumerate(r["blocks"]):
         put("block", [bi], _ent_expect(b["x"]))
         for i, g in enumerate(b["groups"]):
@@ -865,17 +946,26 @@ def build(ctx, r, tag="c"):
 
     def reg(obj, kind, p, x):
         ids[obj.id] = (kind, tuple(p))
+        if x.get("cr") is not None:
+            obj.force_created_at(x["cr"])
         if x["del"] or x["empty"]:
             raws.append((obj, x))
 
+    def nm(x, default):
+        return x.get("name") or default
+
+    def ty(x, default):
+        return x.get("type") or default
+
     for bi, b in enumerate(r["blocks"]):
-        blk = f.create_block("b%d" % bi, "t.block")
+        blk = f.create_block(nm(b["x"], "b%d" % bi), ty(b["x"], "t.block"))
         reg(blk, "block", [bi], b["x"])
         for i, g in enumerate(b["groups"]):
-            reg(blk.create_group("g%d" % i, "t.group"), "group", [bi, i], g["x"])
+            reg(blk.create_group(nm(g["x"], "g%d" % i), ty(g["x"], "t.group")), "group", [bi, i], g["x"])
         das = []
         for i, a in enumerate(b["arrays"]):
-            da = blk.create_data_array("a%d" % i, "t.array", data=np.zeros(tuple(a["shape"])))
+            da = blk.create_data_array(nm(a["x"], "a%d" % i), ty(a["x"], "t.array"),
+                                       data=np.zeros(tuple(a["shape"])))
             das.append(da)
             reg(da, "array", [bi, i], a["x"])
             for d in a["dims"]:
@@ -891,10 +981,12 @@ def build(ctx, r, tag="c"):
                     sd.sampling_interval = d["interval"]
                     if d["unit"] is not None:
                         sd.unit = d["unit"]
+                    if d.get("offset") is not None:
+                        sd.offset = d["offset"]
                 else:
                     st = da.append_set_dimension()
                     if d["labels"]:
-                        st.labels = ["l%d" % k for k in range(d["labels"])]
+                        st.labels = ["" if d.get("lt") == "empty" else "l%d" % k for k in range(d["labels"])]
             dg = da._h5group.group.get("dimensions")
             for j, d in enumerate(a["dims"]):
                 if d["idx"] is not None and d["idx"] != j + 1:
@@ -903,6 +995,8 @@ def build(ctx, r, tag="c"):
         def feats(t, spec):
             for fs in spec["feats"]:
                 ft = t.create_feature(das[fs["data"]], fs["lt"])
+                if fs.get("cr") is not None:
+                    ft._h5group.set_attr("created_at", nix.util.time_to_str(fs["cr"]))
                 g = ft._h5group.group
                 for a in fs["del"]:
                     if a in g.attrs:
@@ -911,10 +1005,10 @@ def build(ctx, r, tag="c"):
                     del g["data"]
 
         for i, t in enumerate(b["tags"]):
-            tg = blk.create_tag("t%d" % i, "t.tag", position=[0.5])
-            tg.position = [float(k) + 0.5 for k in range(t["pos"])]
+            tg = blk.create_tag(nm(t["x"], "t%d" % i), ty(t["x"], "t.tag"), position=[0.5])
+            tg.position = pos_values(t.get("pv"), t["pos"])
             if t["ext"]:
-                tg.extent = [1.0] * t["ext"]
+                tg.extent = ext_values(t.get("ev"), t["ext"])
             for ri in t["refs"]:
                 tg.references.append(das[ri])
             if t["units"]:
@@ -922,7 +1016,7 @@ def build(ctx, r, tag="c"):
             feats(tg, t)
             reg(tg, "tag", [bi, i], t["x"])
         for i, t in enumerate(b["mtags"]):
-            mt = blk.create_multi_tag("m%d" % i, "t.mtag", positions=das[t["pos"]])
+            mt = blk.create_multi_tag(nm(t["x"], "m%d" % i), ty(t["x"], "t.mtag"), positions=das[t["pos"]])
             if t["ext"] is not None:
                 mt.extents = das[t["ext"]]
             for ri in t["refs"]:
@@ -936,17 +1030,18 @@ def build(ctx, r, tag="c"):
 
         def rec(parent, srcs, pre):
             for i, s in enumerate(srcs):
-                so = parent.create_source("s" + "_".join(map(str, pre[1:] + [i])), "t.source")
+                so = parent.create_source(nm(s["x"], "s" + "_".join(map(str, pre[1:] + [i]))),
+                                          ty(s["x"], "t.source"))
                 reg(so, "source", pre + [i], s["x"])
                 rec(so, s["children"], pre + [i])
         rec(blk, b["sources"], [bi])
 
     def recs(parent, secs, pre):
         for i, s in enumerate(secs):
-            se = parent.create_section("sec" + "_".join(map(str, pre + [i])), "t.section")
+            se = parent.create_section(nm(s["x"], "sec" + "_".join(map(str, pre + [i]))), ty(s["x"], "t.section"))
             reg(se, "section", pre + [i], s["x"])
             for k, p in enumerate(s["props"]):
-                pr = se.create_property("p%d" % k, [k, k + 1])
+                pr = se.create_property(p.get("name") or "p%d" % k, [k, k + 1])
                 pr.unit = "s"
                 if p["del"] or p["empty"]:
                     raws.append((pr, p))
@@ -956,6 +1051,8 @@ def build(ctx, r, tag="c"):
         f.force_created_at(0)
     for obj, x in raws:
         _raw(obj, x)
+    if r.get("nodate") and "created_at" in f._h5file.attrs:
+        del f._h5file.attrs["created_at"]
     return f, ids
 
 
@@ -1116,7 +1213,11 @@ def describe(f):
                                 "units": [_s(u) for u in t.units], "refs": [aidx(r.group) for r in t.references._backend],
                                 "features": feats(t, aidx)})
         bd["sources"] = sources(b, [bi])
-    desc = {"created_at": int(f.created_at), "blocks": blocks, "sections": sections(f, [])}
+    try:
+        fcr = int(f.created_at)
+    except KeyError:
+        fcr = None
+    desc = {"created_at": fcr, "blocks": blocks, "sections": sections(f, [])}
     return desc, keys
 
 
@@ -1218,6 +1319,8 @@ def inj_kind(inj):
         return "%s.%s" % (inj[0], inj[-1])
     if inj[0] in ("ref_unit", "ref_rank", "ref_dims"):
         return "%s.%s.%s" % (inj[0], inj[1], inj[-1])
+    if inj[0] == "ticks_adj":
+        return "%s.%s" % (inj[0], inj[2])
     return inj[0]
 
 
@@ -1480,9 +1583,11 @@ def _fixed_cases(ctx):
     rng = random.Random(14)
     out = []
     base = gen_recipe(rng, small=True)
+    base["epoch0"] = True       # a file dated at the epoch has a date (repaired: `not nixfile.created_at`)
+    out.append(("fixed", base, []))
     for inj in eligible(base, "property"):
         if ((inj[0] == "ent_del" and inj[3] == "created_at") or (inj[0] == "feat_del" and inj[-1] == "created_at")
-                or inj[0] == "mt_unlink_pos"):
+                or inj[0] in ("mt_unlink_pos", "file_nodate")):
             m = apply_inj(base, inj)
             if m is not None:
                 out.append(("fixed", m, [inj]))
